@@ -441,10 +441,13 @@ func runProperty(p *Program, id, tier string, seed int, findings []*finding) *pr
 	tb = append(tb, "go/ssa (x/tools v0.29.0) reading of the source", "SMT solvers z3 5.1.0 / z3 4.8.12 / cvc5 1.0 (first unsat wins; sat vs unsat disagreement is an engine error)",
 		"govc's translation of SSA to SMT (DESIGN.md 2.3, 2.10)")
 	cov["trusted_base"] = tb
+	nKnownBefore := len(knownLines)
 	addStructuralCoverage(p, id, tier, res, &violLines, &knownLines, findings)
 	if v, ok := cov["structural_violations"].(int); ok {
 		violations += v
 	}
+	_ = nKnownBefore
+	cov["known_findings"] = knownLines
 	as := sortedKeys(assume)
 	as = append(as, propertyAssumptions(id)...)
 	res.ev.Assumptions = as
@@ -665,4 +668,12 @@ func cmdReplay(args []string) {
 func mustRead(p string) string {
 	b, _ := os.ReadFile(p)
 	return string(b)
+}
+
+func writeJSON(dir, name string, v interface{}) string {
+	os.MkdirAll(dir, 0o755)
+	path := filepath.Join(dir, name)
+	data, _ := json.MarshalIndent(v, "", " ")
+	os.WriteFile(path, data, 0o644)
+	return path
 }
